@@ -73,7 +73,22 @@ class Crate:
         return [b for b in self.bodies if b.parent == body.path]
 
 
-def load_dir(d, names=None):
+_KNOWN_FNS = None
+
+
+def known_fns():
+    global _KNOWN_FNS
+    if _KNOWN_FNS is None:
+        p = os.path.join(os.path.dirname(os.path.abspath(__file__)), '..', 'spec', 'known_fns.json')
+        try:
+            with open(p) as fh:
+                _KNOWN_FNS = {k: set(v) for k, v in json.load(fh).items()}
+        except OSError:
+            _KNOWN_FNS = {}
+    return _KNOWN_FNS
+
+
+def load_dir(d, names=None, raw=False):
     """load fact files from directory d; returns {crate_name: [Crate,...]}"""
     out = defaultdict(list)
     for f in sorted(glob.glob(os.path.join(d, '*.json'))):
@@ -82,8 +97,111 @@ def load_dir(d, names=None):
         if names is not None and cname not in names:
             continue
         with open(f) as fh:
-            out[cname].append(Crate(json.load(fh), f))
+            dd = json.load(fh)
+        if raw:
+            out[cname].append(dd)
+            continue
+        kn = known_fns().get(dd['crate'])
+        if kn is not None:
+            inline_new_helpers(dd, kn)
+        out[cname].append(Crate(dd, f))
     return out
+
+
+# --------------------------------------------------------------------------------------------
+# splicing of new helper functions into their callers
+
+def _renumber(x, loff, boff):
+    """deep copy of a statement / terminator / names entry of the callee with locals shifted by loff"""
+    if isinstance(x, dict):
+        ks = set(x.keys())
+        if 'l' in ks and ks <= {'l', 'pr'} and isinstance(x['l'], int):
+            o = {'l': x['l'] + loff}
+            if 'pr' in x:
+                o['pr'] = [({'ix': e['ix'] + loff} if isinstance(e, dict) and 'ix' in e else e) for e in x['pr']]
+            return o
+        return {k: _renumber(v, loff, boff) for k, v in x.items()}
+    if isinstance(x, list):
+        return [_renumber(v, loff, boff) for v in x]
+    return x
+
+
+def _shift_term(t, boff, dest, target, unwind, ln):
+    """callee terminator -> list of extra statements, new terminator"""
+    k = t['k']
+    if k == 'ret':
+        st = [{'p': dest, 'rv': {'use': {'mv': {'l': t['_ret']}}}, 'ln': ln, 'inl': True}]
+        if target is None:
+            return st, {'k': 'unreachable', 'ln': ln}
+        return st, {'k': 'goto', 't': target, 'ln': ln}
+    if k == 'resume':
+        if isinstance(unwind, int):
+            return [], {'k': 'goto', 't': unwind, 'ln': ln}
+        return [], t
+    t = dict(t)
+    for key in ('t', 'else', 'drop', 'false_edge'):
+        if isinstance(t.get(key), int):
+            t[key] = t[key] + boff
+    if isinstance(t.get('u'), int):
+        t['u'] = t['u'] + boff
+    elif 'u' in t and t['u'] in ('continue', None) and isinstance(unwind, int) and k in ('call', 'drop', 'assert'):
+        t['u'] = unwind
+    if 'arms' in t:
+        t['arms'] = [[v, tb + boff] for v, tb in t['arms']]
+    return [], t
+
+
+def inline_new_helpers(dd, known, max_rounds=4):
+    """dd: crate fact dict.  Every call to a crate-local `fn` whose path is not in `known` (a helper added after the pinned
+    tree) is replaced by the helper's body (blocks spliced, locals renumbered, arguments bound by assignments, returns turned
+    into an assignment to the call's destination).  The helper bodies themselves are dropped from the crate afterwards, so
+    rules see one body per original function.  Recursion and generic trait dispatch are left alone."""
+    helpers = {b['path']: b for b in dd['bodies'] if b['kind'] == 'fn' and b['path'] not in known}
+    if not helpers:
+        return
+    used = set()
+    for rnd in range(max_rounds):
+        changed = False
+        for b in dd['bodies']:
+            blocks = b['blocks']
+            nb0 = len(blocks)
+            for bi in range(nb0):
+                t = blocks[bi]['term']
+                if t['k'] != 'call' or t.get('fn') not in helpers:
+                    continue
+                h = helpers[t['fn']]
+                if h is b or len(t['args']) != h['argc']:
+                    continue
+                if len(h['blocks']) > 400 or len(blocks) > 4000:
+                    continue
+                used.add(h['path'])
+                changed = True
+                loff = len(b['locals'])
+                boff = len(blocks)
+                b['locals'] = b['locals'] + h['locals']
+                ln = t.get('ln')
+                for n in h['names']:
+                    nn = _renumber(n, loff, boff)
+                    nn.pop('arg', None)
+                    b['names'].append(nn)
+                for hb in h['blocks']:
+                    nbk = {'stmts': [_renumber(s, loff, boff) for s in hb['stmts']]}
+                    if hb.get('cleanup') or blocks[bi].get('cleanup'):
+                        nbk['cleanup'] = True
+                    ht = _renumber(hb['term'], loff, boff)
+                    ht['_ret'] = loff
+                    extra, nt = _shift_term(ht, boff, t['dest'], t.get('t'), t.get('u'), ln)
+                    nt.pop('_ret', None)
+                    nbk['stmts'].extend(extra)
+                    nbk['term'] = nt
+                    blocks.append(nbk)
+                binds = [{'p': {'l': loff + 1 + i}, 'rv': {'use': a}, 'ln': ln, 'inl': True} for i, a in enumerate(t['args'])]
+                blocks[bi]['stmts'] = blocks[bi]['stmts'] + binds
+                blocks[bi]['term'] = {'k': 'goto', 't': boff, 'ln': ln, 'inlined': h['path']}
+        if not changed:
+            break
+    dd['bodies'] = [b for b in dd['bodies'] if not (b['path'] in used and b['kind'] == 'fn')]
+    dd['inlined_helpers'] = sorted(used)
 
 
 # --------------------------------------------------------------------------------------------
